@@ -5,6 +5,7 @@ mod gen;
 mod gen_tables;
 mod refmodels;
 mod harness;
+mod opt;
 mod prfsim;
 mod props_tri;
 mod rng;
@@ -38,6 +39,7 @@ fn dispatch(args: &harness::Args) -> i32 {
     if let Some(path) = &args.replay {
         return match args.prop.as_str() {
             "C01" | "C02" | "C05" | "C18" | "C19" => props_tri::replay_cmd(args, path),
+            "C04" | "C06" => opt::replay_cmd(path),
             "C11" => apisim::replay_cmd(path),
             "C12" => storesim::replay_cmd(path),
             "C14" => sharesim::replay_cmd(path),
@@ -51,7 +53,9 @@ fn dispatch(args: &harness::Args) -> i32 {
     match args.prop.as_str() {
         "C01" => props_tri::run_c01(args),
         "C02" => props_tri::run_c02(args),
+        "C04" => opt::run_c04(args),
         "C05" => props_tri::run_c05(args),
+        "C06" => opt::run_c06(args),
         "C11" => apisim::run_c11(args),
         "C12" => storesim::run_c12(args),
         "C14" => sharesim::run_c14(args),
